@@ -27,6 +27,14 @@ let one (line : string) : string =
        | "client" -> (match dec_cmsg j with None -> "none" | Some m -> fin enc_cmsg dec_cmsg m false)
        | "server" -> (match dec_smsg j with None -> "none" | Some m -> fin enc_smsg dec_smsg m false)
        | "sync" -> (match dec_sync j with None -> "none" | Some m -> fin enc_sync dec_sync m true)
+       | k when String.length k >= 5 && String.sub k 0 5 = "entry" ->
+           let e = (if String.length k > 7 && String.sub k 0 7 = "entryC:" then
+                      Cas (j, (let d = String.sub k 7 (String.length k - 7) in
+                               let acc = ref N0 in String.iter (fun c -> acc := N.add (N.mul !acc (n_of_int 10)) (n_of_int (Char.code c - 48))) d; !acc))
+                    else Plain j) in
+           let enc = enc_entry e in
+           let text = pr enc in
+           Printf.sprintf "ok %s rt=%d line=%d" (hex text) (if dec_entry enc = e then 1 else 0) (if String.contains text '\n' then 0 else 1)
        | _ -> failwith "kind")
 
 let () =
